@@ -215,6 +215,7 @@ def handler(st, opts):
         elif track == "x0": tt.grad.watch(X, [0]); leaves = [xl[0]]
         elif track == "xl": tt.grad.watch(X, [len(xl) - 1]); leaves = [xl[-1]]
         elif track == "xr": tt.grad.watch(X, [len(xl) - 1, 0]); leaves = [xl[-1], xl[0]]
+        elif track == "xw2": tt.grad.watch(X, [0]); tt.grad.watch(X, [len(xl) - 1]); leaves = [xl[0], xl[-1]]
         elif track == "y": tt.grad.watch(Y); leaves = list(yl)
         elif track == "wx": tt.grad.watch_list([W, X]); leaves = list(wl) + list(xl)
         else: tt.grad.watch_list([X, Y]); leaves = list(xl) + list(yl)
@@ -228,7 +229,7 @@ def handler(st, opts):
             yd0 = [t.detach().clone().requires_grad_(True) for t in c.y]
             wd0 = [t.detach().clone().requires_grad_(True) for t in c.w] if c.w is not None else None
             v0 = eval_dense(c, xd0, yd0, body, head, red, wd0)
-            dl0 = {"x": xd0, "x0": [xd0[0]], "xl": [xd0[-1]], "xr": [xd0[-1], xd0[0]], "y": yd0, "xy": xd0 + yd0, "wx": (wd0 or []) + xd0}[track]
+            dl0 = {"x": xd0, "x0": [xd0[0]], "xl": [xd0[-1]], "xr": [xd0[-1], xd0[0]], "xw2": [xd0[0], xd0[-1]], "y": yd0, "xy": xd0 + yd0, "wx": (wd0 or []) + xd0}[track]
             r0 = torch.autograd.grad(v0, dl0, allow_unused=True) if v0.requires_grad else [None] * len(dl0)
             if all(g is None or not bool(g.abs().max() > 0) for g in r0) and abs(val.item() - v0.item()) <= 1e-9 * max(1.0, abs(v0.item())):
                 return {"problems": [], "stats": {"behaviours": 1, "calls": 1, "constant_program": 1}}
@@ -238,6 +239,7 @@ def handler(st, opts):
         elif track == "x0": got = tt.grad.grad(val, X, [0])
         elif track == "xl": got = tt.grad.grad(val, X, [len(xl) - 1])
         elif track == "xr": got = tt.grad.grad(val, X, [len(xl) - 1, 0])
+        elif track == "xw2": got = tt.grad.grad(val, X, [0, len(xl) - 1])
         elif track == "y": got = tt.grad.grad(val, Y)
         elif track in ("wx", "xy"):
             tens = [W, X] if track == "wx" else [X, Y]
@@ -260,7 +262,7 @@ def handler(st, opts):
         # value is the square root of cancellation noise - outside the property's claim (the exclusion of spec/Expr.tla, decided
         # on the dense program so that it also covers zeros buried deeper in the body)
         return {"problems": [], "stats": {"behaviours": 1, "calls": 1, "skipped_norm_of_zero": 1}}
-    dl = {"x": xd, "x0": [xd[0]], "xl": [xd[-1]], "xr": [xd[-1], xd[0]], "y": yd, "xy": xd + yd, "wx": (wd or []) + xd}[track]
+    dl = {"x": xd, "x0": [xd[0]], "xl": [xd[-1]], "xr": [xd[-1], xd[0]], "xw2": [xd[0], xd[-1]], "y": yd, "xy": xd + yd, "wx": (wd or []) + xd}[track]
     ref = torch.autograd.grad(vd, dl, allow_unused=True)
     vscale = max(abs(vd.item()), 1e-300) if S.get("scale", "unit") == "tiny" else max(1.0, abs(vd.item()))
     if abs(val.item() - vd.item()) > 1e-9 * vscale + 1e-20:        # (1e-20: cancellation noise floor for leaves of magnitude 1e-8)
@@ -291,7 +293,7 @@ def handler(st, opts):
             for sgn in (+1, -1):
                 xl2 = [t.detach().clone() for t in xl]; yl2 = [t.detach().clone() for t in yl]
                 wl2 = [t.detach().clone() for t in wl] if wl is not None else None
-                tgt = (wl2 if track == "wx" else (xl2 if track in ("x", "x0", "xy") else yl2))[0] if track not in ("xl", "xr") else xl2[-1]
+                tgt = (wl2 if track == "wx" else (xl2 if track in ("x", "x0", "xy", "xw2") else yl2))[0] if track not in ("xl", "xr") else xl2[-1]
                 tgt.reshape(-1)[e] += sgn * h
                 with torch.no_grad():
                     vals.append(eval_tt(tt, c, tt.TT(xl2), tt.TT(yl2), body, head, red, tt.TT(wl2) if wl2 is not None else None).item())
